@@ -606,15 +606,22 @@ pub fn build_p(p: &P) -> BP {
             let mv = intern(metavar);
             macro_rules! mk {
                 ($t:ty, $f:expr) => {{
+                    // a metavariable ending in `_` asks for the help to be attached AFTER the
+                    // strictness annotation (both orders are legal and must mean the same)
+                    let help_last = metavar.ends_with('_');
                     let mut a = positional::<$t>(mv);
-                    if let Some(h) = help {
+                    if let (Some(h), false) = (help, help_last) {
                         a = a.help(h.build());
                     }
-                    match strict {
-                        Strict::Any => a.map($f).boxed(),
-                        Strict::Strict => a.strict().map($f).boxed(),
-                        Strict::NonStrict => a.non_strict().map($f).boxed(),
+                    let mut a = match strict {
+                        Strict::Any => a,
+                        Strict::Strict => a.strict(),
+                        Strict::NonStrict => a.non_strict(),
+                    };
+                    if let (Some(h), true) = (help, help_last) {
+                        a = a.help(h.build());
                     }
+                    a.map($f).boxed()
                 }};
             }
             match ty {
